@@ -44,7 +44,10 @@ def write(system, outfile, skip_empty=True, overwrite=None, add_book=None, **kwa
     if not confirm_overwrite(outfile, overwrite=overwrite):
         return False
 
-    writer = pd.ExcelWriter(outfile, engine='xlsxwriter')
+    # write strings as they are: a value such as '=' (the `Alter.method` for assignment)
+    # must not be turned into a formula, which would read back as 0
+    writer = pd.ExcelWriter(outfile, engine='xlsxwriter',
+                            engine_kwargs={'options': {'strings_to_formulas': False}})
     writer = _write_system(system, writer, skip_empty)
     writer = _add_book(system, writer, add_book)
 
